@@ -750,3 +750,77 @@ impl MemBalancerTrigger {
         self.current_heap_pages.store(new_heap, Ordering::Relaxed);
     }
 }
+
+/// Forwarders for the external verification harnesses (see `crate::verif_hooks`): constructors and one-call
+/// wrappers for the module-private `MemBalancerTrigger` API. No logic.
+#[cfg(any(kani, mmtk_verif))]
+pub mod verif_hooks {
+    use super::*;
+    /// Opaque handle on the module-private statistics record.
+    pub struct Stats(MemBalancerStats);
+    /// Build a statistics record from its eight numeric fields (`prev` = previous estimation, `cur` = this one,
+    /// each in the order allocation pages, allocation time, collection pages, collection time).
+    pub fn make_stats(prev: [Option<f64>; 4], cur: [f64; 4], now: Instant) -> Stats {
+        Stats(MemBalancerStats {
+            allocation_pages_prev: prev[0],
+            allocation_time_prev: prev[1],
+            collection_pages_prev: prev[2],
+            collection_time_prev: prev[3],
+            allocation_pages: cur[0],
+            allocation_time: cur[1],
+            collection_pages: cur[2],
+            collection_time: cur[3],
+            gc_start_time: now,
+            gc_end_time: now,
+            gc_release_live_pages: 0,
+            gc_end_live_pages: 0,
+        })
+    }
+    pub fn stats_fields(s: &Stats) -> ([Option<f64>; 4], [f64; 4]) {
+        (
+            [
+                s.0.allocation_pages_prev,
+                s.0.allocation_time_prev,
+                s.0.collection_pages_prev,
+                s.0.collection_time_prev,
+            ],
+            [
+                s.0.allocation_pages,
+                s.0.allocation_time,
+                s.0.collection_pages,
+                s.0.collection_time,
+            ],
+        )
+    }
+    pub fn new_mem_balancer(min_heap_pages: usize, max_heap_pages: usize) -> MemBalancerTrigger {
+        MemBalancerTrigger::new(min_heap_pages, max_heap_pages)
+    }
+    pub fn compute_new_heap_limit(t: &MemBalancerTrigger, live: usize, extra_reserve: usize, stats: &mut Stats) {
+        t.compute_new_heap_limit(live, extra_reserve, &mut stats.0)
+    }
+    pub fn on_pending_allocation<VM: VMBinding>(t: &MemBalancerTrigger, pages: usize) {
+        <MemBalancerTrigger as GCTriggerPolicy<VM>>::on_pending_allocation(t, pages)
+    }
+    pub fn current_heap_pages<VM: VMBinding>(t: &MemBalancerTrigger) -> usize {
+        <MemBalancerTrigger as GCTriggerPolicy<VM>>::get_current_heap_size_in_pages(t)
+    }
+    pub fn max_heap_pages<VM: VMBinding>(t: &MemBalancerTrigger) -> usize {
+        <MemBalancerTrigger as GCTriggerPolicy<VM>>::get_max_heap_size_in_pages(t)
+    }
+    pub fn can_heap_size_grow<VM: VMBinding>(t: &MemBalancerTrigger) -> bool {
+        <MemBalancerTrigger as GCTriggerPolicy<VM>>::can_heap_size_grow(t)
+    }
+    pub fn new_fixed(total_pages: usize) -> FixedHeapSizeTrigger {
+        FixedHeapSizeTrigger { total_pages }
+    }
+    pub fn fixed_current_and_max<VM: VMBinding>(t: &FixedHeapSizeTrigger) -> (usize, usize, bool) {
+        (
+            <FixedHeapSizeTrigger as GCTriggerPolicy<VM>>::get_current_heap_size_in_pages(t),
+            <FixedHeapSizeTrigger as GCTriggerPolicy<VM>>::get_max_heap_size_in_pages(t),
+            <FixedHeapSizeTrigger as GCTriggerPolicy<VM>>::can_heap_size_grow(t),
+        )
+    }
+    pub fn fixed_on_pending_allocation<VM: VMBinding>(t: &FixedHeapSizeTrigger, pages: usize) {
+        <FixedHeapSizeTrigger as GCTriggerPolicy<VM>>::on_pending_allocation(t, pages)
+    }
+}
